@@ -1926,16 +1926,29 @@ func rC07SingleDash(w *World, r *Report) {
 				op = token.LEQ
 			}
 		}
+		k, isK := constInt(y)
+		atMost := func(n int64) bool {
+			return isK && ((op == token.LEQ && k == n) || (op == token.EQL && k == n) || (op == token.LSS && k == n+1))
+		}
+		isRunes := func(v ssa.Value) bool {
+			cv, ok := v.(*ssa.Convert)
+			return ok && typeString(cv.Type()) == "[]rune" && isSubmatchElem(cv.X, 2)
+		}
+		// utf8.RuneCountInString(match[2]) <= 1
+		if rc, ok := x.(*ssa.Call); ok && calleeName(rc) == "unicode/utf8.RuneCountInString" && isSubmatchElem(rc.Call.Args[0], 2) {
+			return atMost(1)
+		}
 		c, ok := lenOf(x)
 		if !ok {
 			return false
 		}
-		cv, ok := c.(*ssa.Convert)
-		if !ok || typeString(cv.Type()) != "[]rune" || !isSubmatchElem(cv.X, 2) {
-			return false
+		// len([]rune(match[2])[1:]) == 0
+		if sl, ok := c.(*ssa.Slice); ok && sl.High == nil && isRunes(sl.X) {
+			if lo, ok := constInt(sl.Low); ok && lo == 1 {
+				return atMost(0)
+			}
 		}
-		k, isK := constInt(y)
-		return isK && ((op == token.LEQ && k == 1) || (op == token.EQL && k == 1) || (op == token.LSS && k == 2))
+		return isRunes(c) && atMost(1)
 	}
 	// the value itself is empty: string([]rune(match[2])[1:]) + match[3] == ""
 	valueEmpty := func(fc Fact) bool {
